@@ -180,6 +180,7 @@ class TypeDef:
         self.variants = []            # (name, index, shape, encoding-override, tag, fields)
         self.lifetime = False
         self.params = []              # [(parameter name, concrete Rust type)] of a generic definition
+        self.len_only = False         # only the length / bounded-sink checks run it (wire format not documented)
 
     def eff_enc(self, override=None):
         e = override or self.encoding or "array"
@@ -192,7 +193,12 @@ def field_attr(f):
     items = ["%s(%d)" % ("b" if f.b else "n", f.index)]
     if f.tag is not None:
         items.append("tag(%d)" % f.tag)
-    items += f.t.attrs
+    extra = list(f.t.attrs)
+    if len(extra) > 2:
+        # the order of separate codec attributes must not matter: rotate / reverse it per field
+        k = (f.index + len(f.name)) % (len(extra) + 1)
+        extra = extra[::-1] if k == len(extra) else extra[k:] + extra[:k]
+    items += extra
     if f.b and f.t.lifetime and not f.t.free_b:
         # the borrow is needed for the program to compile at all: keep it in the short spelling, so
         # that the `cbor(b(..))` spelling is exercised where its effect is observable at run time
@@ -319,7 +325,7 @@ def emit_type(td):
             vs.append("VariantSchema { index: %d, tag: %s, encoding: %s, unit: %s, fields: vec![%s] }" % (
                 vi, "Some(%d)" % vtag if vtag is not None else "None", td.eff_enc(venc), "true" if vshape == "unit" else "false", ", ".join(emit_field_schema(f) for f in schema_fields(vfields))))
         kind = "Kind::Enum { index_only: %s, variants: vec![%s] }" % ("true" if td.index_only else "false", ", ".join(vs))
-    out.append("pub fn schema_%s() -> TypeSchema { TypeSchema { name: \"%s\", tag: %s, kind: %s } }" % (td.name, td.name, "Some(%d)" % td.tag if td.tag is not None else "None", kind))
+    out.append("pub fn schema_%s() -> TypeSchema { TypeSchema { name: \"%s\", tag: %s, kind: %s, loose: %s } }" % (td.name, td.name, "Some(%d)" % td.tag if td.tag is not None else "None", kind, "true" if td.len_only else "false"))
     return "\n".join(out)
 
 
@@ -549,6 +555,27 @@ def special_types():
     td.kind = "enum"
     td.variants = [("A", 0, "named", "map", None, [Field("x", 0, named(tro)), Field("y", 1, opt(U8))]), ("B", 1, "tuple", None, None, [Field("x", 0, U8), Field("y", 1, named(trs))])]
     out.append(finish(td))
+    # partial custom codecs: only decode_with, only encode_with, encode_with + is_nil.  Which fields
+    # count as nil-able is then decided from the spelling of the type, which the documentation does
+    # not fix, so these types are only run by the checks that need no reference format: C07 (len ==
+    # bytes written), C13 (bounded sinks) and the plain round trip of C09.  (`encode_with` + `is_nil`
+    # on a type not spelled `Option` without a matching `nil` is asymmetric by the user's own
+    # declaration and is left out.)
+    import copy as _copy
+    def with_attrs(t, attrs):
+        c = _copy.copy(t)
+        c.attrs = attrs
+        return c
+    dec_only = ['decode_with = "dsupport::codecs::plain::dec_opt_u16"']
+    enc_only = ['encode_with = "dsupport::codecs::plain::enc_opt_u16"']
+    enc_nil = ['encode_with = "dsupport::codecs::plain::enc_opt_u16"', 'is_nil = "dsupport::codecs::plain::is_nil_opt_u16"']
+    for name, enc in [("PartialCodecMap", "map"), ("PartialCodecArr", "array")]:
+        td = TypeDef(name)
+        td.encoding = enc
+        td.len_only = True
+        td.fields = [Field("a", 0, U8), Field("b", 1, with_attrs(opt(U16), dec_only)), Field("c", 2, with_attrs(alias(opt(U16)), dec_only)), Field("d", 3, with_attrs(opt(U16), enc_only)),
+                     Field("e", 4, with_attrs(alias(opt(U16)), enc_only)), Field("g", 7, opt(U8)), Field("h", 6, with_attrs(opt(U16), enc_nil), tag=9)]
+        out.append(finish(td))
     # Tagged<N, T> as a field type, also around nil-capable types and in front of present fields
     td = TypeDef("TaggedTy")
     td.fields = [Field("a", 0, tagged(7, opt(U8))), Field("b", 1, U8), Field("c", 2, tagged(24, opt(STRING))), Field("d", 3, tagged(1000, U16), tag=5), Field("e", 5, opt(tagged(9, I32)))]
@@ -635,12 +662,14 @@ def gen_chain(rnd, cid, pool, force=None):
         # a mandatory field whose type is a transparent newtype around an Option (never nil itself)
         s.fields.append(Field("tr", max(used) + 1, named(TRANSP[cid % len(TRANSP)])))
         used = set(f.index for f in s.fields)
-    ei = max(used) + rnd.choice([1, 2, 3])
+    ei = max(used) + (3 if force else rnd.choice([1, 2, 3]))   # forced chains keep gap indices free
     s.fields.append(Field("en", ei, opt(named(e)), tag=rnd.choice([None, None, 6])))
     # make sure there is room for gap insertions: shift some indices up
     finish(s)
     versions.append(s)
     nsteps = rnd.choice([1, 2, 3, 4])
+    if force:
+        nsteps = max(nsteps, 2)
     control = None
     ever_used = set(f.index for f in s.fields)   # an index is never reused with another meaning
     for step in range(1, nsteps + 1):
@@ -656,13 +685,16 @@ def gen_chain(rnd, cid, pool, force=None):
         edit = rnd.choice(["add_high", "add_gap", "drop_opt", "add_variant", "unit_to_fields", "flip_nb", "add_high", "add_gap"])
         if force and step == 1:
             edit = "unit_to_fields"
-        newt = rnd.choice([opt(U8), opt(STRING), opt(vec(U16)), NIL_WITH, opt(I64), opt(bmap(BOOL))])
+        if force and step == 2:
+            edit = "add_gap"
+            newt = [BYTES_OPT_VEC, NIL_FNS, opt(U8), BYTES_OPT_VEC][cid % 4]
+        newt = rnd.choice([opt(U8), opt(STRING), opt(vec(U16)), NIL_WITH, opt(I64), opt(bmap(BOOL)), BYTES_OPT_VEC, NIL_FNS, alias(opt(U32))])
         if edit == "add_high":
             ns.fields.append(Field("a%d" % step, max(used) + rnd.choice([1, 1, 2, 5]), newt, tag=rnd.choice([None, None, 9, 300])))
         elif edit == "add_gap":
             gaps = [i for i in range(0, max(used)) if i not in used]
             if gaps:
-                ns.fields.append(Field("a%d" % step, rnd.choice(gaps), newt, tag=rnd.choice([None, None, 9, 300])))
+                ns.fields.append(Field("a%d" % step, rnd.choice(gaps), newt, tag=(9 if force else rnd.choice([None, None, 9, 300]))))
             else:
                 ns.fields.append(Field("a%d" % step, max(used) + 1, newt))
         elif edit == "drop_opt":
@@ -907,7 +939,8 @@ def main():
     for vs, es, ctl in chains:
         for t in vs + es + [ctl]:
             chain_names.add(t.name)
-    value_calls = "\n".join("    go!(%sFam);" % td.name for td in all_types if not td.name.endswith("Twin") and not (td.name in chain_names and td.name[-3:] == "Ctl"))
+    value_calls = "\n".join("    go!(%sFam);" % td.name for td in all_types if not td.len_only and not td.name.endswith("Twin") and not (td.name in chain_names and td.name[-3:] == "Ctl"))
+    value_calls += "\n    if w.c07 || w.c13 || w.c09 {\n" + "\n".join("        go!(%sFam);" % td.name for td in all_types if td.len_only) + "\n    }"
     twin_calls = "\n".join("    tw!(%sFam, %sFam);" % (a.name, b.name) for a, b in twins)
     pairs = []
     for vs, es, ctl in chains:
